@@ -22,6 +22,7 @@ ROOT = os.path.dirname(os.path.dirname(os.path.abspath(__file__)))
 # runs against a scratch copy (sensitivity testing with VERIF_REPO) must not overwrite the real evidence
 SCRATCH = os.path.realpath(os.environ.get("VERIF_REPO", "/repo")) != "/repo"
 EVID_DIR = os.path.join(ROOT, ".cache", "evidence-scratch") if SCRATCH else os.path.join(ROOT, "evidence")
+SCRATCH_ALT_OFF = os.environ.get("VERIF_NO_ALT") == "1"
 
 
 class Outcome:
@@ -127,12 +128,16 @@ class Collector:
 def _worker(job):
     kind, pid, tier, seed, idx, n = job
     try:
+        if kind == "alt":
+            import pbt.sut as sut
+            if str(sut.PPQN) != os.environ.get("VERIF_PPQN"):
+                raise RuntimeError("alternative-PPQN worker did not pick up VERIF_PPQN")
         mod = importlib.import_module(f"pbt.props.{pid.lower()}")
         known = load_known(pid)
         col = Collector(mod, known)
         params = dict(mod.TIERS[tier])
         col.shrink_budget = float(params.get("shrink_seconds", 20 if tier == "quick" else 90))
-        if kind == "hyp":
+        if kind in ("hyp", "alt"):
             _run_hypothesis(mod, col, params, seed, idx, n)
         elif kind == "enum":
             _run_enum(mod, col, params, idx, n)
@@ -302,6 +307,19 @@ def main(argv=None):
     ctx = multiprocessing.get_context("fork")
     with ctx.Pool(ncpu) as pool:
         results = pool.map(_worker, jobs, chunksize=1)
+    # shards that run the library under a non-default PPQN need fresh interpreters (settings are bound at import time)
+    alt_jobs = []
+    for k, ppqn in enumerate(params.get("alt_ppqn", [])):
+        if SCRATCH_ALT_OFF:
+            break
+        n_alt = params.get("alt_shards", 2)
+        os.environ["VERIF_PPQN"] = str(ppqn)
+        batch = [("alt", pid, tier, seed, 100 * (k + 1) + i, n_alt) for i in range(n_alt)]
+        with multiprocessing.get_context("spawn").Pool(min(len(batch), 16)) as pool:
+            results += pool.map(_worker, batch, chunksize=1)
+        os.environ.pop("VERIF_PPQN", None)
+        alt_jobs += batch
+    jobs = jobs + alt_jobs
 
     known = load_known(pid)
     evaluations = sum(r["evaluations"] for r in results)
@@ -338,7 +356,8 @@ def main(argv=None):
             exhaustive=bool(getattr(mod, "EXHAUSTIVE", False)),
             labels=dict(sorted(labels.items())), inconclusive=dict(inconclusive),
             known_finding_hits=dict(known_hits), corpus_cases=len(corpus_files(pid)),
-            shards=len(jobs), shard_seeds=[seed * 1000 + j[4] for j in jobs if j[0] == "hyp"],
+            shards=len(jobs), shard_seeds=[seed * 1000 + j[4] for j in jobs if j[0] in ("hyp", "alt")],
+            alt_ppqn=list(params.get("alt_ppqn", [])),
             parameters={k: v for k, v in params.items()},
         ),
         assumptions=list(getattr(mod, "ASSUMPTIONS", [])),
